@@ -111,6 +111,61 @@ def step(ctx, case):
         ctl.restore_show()
 
 
+def rendered(ctx, case):
+    """the live view with nothing stubbed: real decoder, line loop, manager, controller, Message.show and Output. Streams of lines chosen from a
+    pool that contains IDENTICAL consecutive lines, time steps from 0 to more than an hour and two connections; real matcher texts as the filter"""
+    import re, io
+    from core import wl, matcher, util
+    from core.connection_manager import ConnectionManager
+    from core.output import Output
+    from frontends.tui.controller import Controller
+    from backends.libwayland_debug_output import parse
+    from core.wl import protocol
+    from lib.stubs import RecStream
+    import logging
+    logging.disable(logging.CRITICAL)
+    n, ftext = case
+    protocol.interfaces.clear()
+    util.color_output = False
+    wl.Message.base_time = None
+    pool = ['wl_registry@2.global(1, "wl_a", 1)', ' -> wl_registry@2.bind(1, "wl_a", 1, new id [unknown]@3)', 'wl_a@3.poke(wl_registry@2, nil)', 'wl_registry@2.global_remove(1)']
+    steps = [0, 40, 500000, 61000000, 3700000000]          # microseconds
+    t = 5000000
+    lines = ['[%d.%03d] <%s>  -> wl_display@1.get_registry(new id wl_registry@2)' % (t // 1000, t % 1000, c) for c in ('1', '2')]
+    for k in range(n):
+        body = ctx.choose(pool, 'line%d' % k)
+        t += ctx.choose(steps, 'step%d' % k)
+        tag = '1' if k == 0 else ctx.choose(['1', '2'], 'tag%d' % k)
+        lines.append('[%d.%03d] <%s> %s' % (t // 1000, t % 1000, tag, body))
+    out, err = RecStream(), RecStream()
+    output = Output(False, True, out, err)
+    mgr = ConnectionManager()
+    flt = matcher.parse(ftext).simplify()
+    Controller(output, mgr, flt, matcher.never)
+    parse.into_sink(io.StringIO(''.join(l + chr(10) for l in lines)), output, mgr)
+    ctx.check('no error output', err.items == [])
+    recorded = [m for c in mgr.connections() for m in c.messages()]
+    recorded.sort(key=lambda m: (m.timestamp,))
+    ctx.check('every message, shown or not, is recorded', len(recorded) == len(lines))
+    # arrival order = line order: rebuild from the per-connection lists
+    per = {c.name(): list(c.messages()) for c in mgr.connections()}
+    arrival = []
+    for l in lines:
+        nm = 'A' if '<1>' in l else 'B'
+        if per.get(nm):
+            arrival.append(per[nm].pop(0))
+    want = []
+    for m in arrival:
+        if flt.matches(m):
+            o2 = RecStream()
+            m.show(Output(False, True, o2, RecStream()))
+            want += o2.items
+    shown = [x for x in out.items if re.match(r'^\s*-?\d+\.\d{4} ', x)]
+    if shown != want:
+        ctx.note('shown', shown); ctx.note('want', want)
+    ctx.check('the message lines shown are exactly the matching ones, each once, in arrival order (identical consecutive messages are two lines)', shown == want)
+
+
 def twin(ctx, case):
     step(ctx, case)
     ctx.check('reachability twin (must be violated)', False)
@@ -132,6 +187,10 @@ def obligations(tier):
                     if cmd in (None, 'filter', 'typo'):
                         cases.append((pre, sel, cmd, (closed, 1 - closed), 10 + closed))
     bounds = 'records <= 3, 2 connections, selection none/A/B (selected connection possibly closed), optional command (filter / connection A / B / all), 1-%d arrivals; verdicts of all leaves symbolic' % max(len(a) for a in arrs)
-    return [Ob('live-view-step', 'symx', 'one live-view step from an arbitrary controller state', FUNCS, bounds, step, cases=cases,
+    rcases = [(k, f) for k in ((2, 3) if tier == 'quick' else (2, 3, 4)) for f in ('*', 'wl_registry.global', '! wl_registry.global', 'B:', 'wl_a')]
+    return [Ob('live-view-rendered', 'symx', 'nothing stubbed: streams with identical consecutive lines, time steps 0 .. > 1 h, two connections, real matchers as filter: shown lines = matching messages, each once, in order',
+               FUNCS + ['core.wl.message:Message.show', 'core.output.output:Output.show', 'backends.libwayland_debug_output.parse:into_sink'],
+               '<= %d further lines from a pool of 4 x 5 time steps x 2 connections (exhaustive over the choices), 5 filters' % (3 if tier == 'quick' else 4), rendered, cases=rcases),
+            Ob('live-view-step', 'symx', 'one live-view step from an arbitrary controller state', FUNCS, bounds, step, cases=cases,
                stubs=['abstract leaves', 'Message.show stubbed', 'matcher.parse stubbed inside the filter command']),
             Ob('live-view-step-reachable', 'symx', 'reachability twin', FUNCS, bounds, twin, cases=[((0,), None, 'filter', (0, 1))], expect_cex=True)]
